@@ -56,7 +56,10 @@ class ClientMetadataClaims(BaseClaims):
         uris = self.get("redirect_uris")
         if uris:
             for uri in uris:
-                self._validate_uri("redirect_uris", uri)
+                if not isinstance(uri, str) or not is_valid_url(
+                    uri, fragments_allowed=False
+                ):
+                    raise InvalidClaimError("redirect_uris")
 
     def validate_token_endpoint_auth_method(self):
         """String indicator of the requested authentication method for the
